@@ -10,7 +10,7 @@ Driver ops of the ordinal-suffix model (C17).
   the rule on a number literal of that value followed directly by the word `<cp>*`; the token
   (number + word) spans `[tokstart, tokend)`.
 -/
-namespace Harper.Driver
+namespace Harper.Driver.NumberSuffix
 open Harper Harper.Proto
 
 def showSuffix : Option Suffix → String
@@ -66,4 +66,4 @@ def handleNsRule (args : List String) : String :=
     | _, _, _, _ => "bad-op"
   | _ => "bad-op"
 
-end Harper.Driver
+end Harper.Driver.NumberSuffix
